@@ -419,7 +419,7 @@ def gl7(prog):
 
 def run(prog):
     a, getfn = gl1(prog)
-    return a + gl2(prog, getfn) + gl3(prog) + gl4(prog) + gl5(prog) + gl6(prog) + gl7(prog) + gl8(prog) + gl9(prog)
+    return a + gl2(prog, getfn) + gl3(prog) + gl4(prog) + gl5(prog) + gl6(prog) + gl7(prog) + gl8(prog) + gl9(prog) + gl10(prog)
 
 
 def _resolve(t, d):
@@ -525,4 +525,33 @@ def gl9(prog):
                             "key of the persistent memo mentions every parameter used (%s)" % sorted(inkey)))
     if n < 5:
         raise CheckerError("GL9: only %d persistent memo lookups recognised (expected >= 5)" % n)
+    return out
+
+
+
+def gl10(prog):
+    """GL10  the builders' cache accessors (app_cache_insert / ite_cache_insert) hand the result they are given to the
+    table *unchanged*: normalising the complement marker is the ITE table's own job (CP compl-flag), and the apply
+    cache stores the result of the very conjunction it is keyed by.  A second transformation in the wrapper stores a
+    value that later lookups replay as the wrong function."""
+    out = []
+    n = 0
+    for f in prog.lib_fns:
+        if f.name not in ("ite_cache_insert", "app_cache_insert") or not f.impl_self or \
+                not any(b["term"]["k"] == "call" for b in f.blocks):
+            continue
+        ins = [cs for cs in f.terms.calls if cs.callee.name == "insert"]
+        if not ins:
+            continue   # a builder without that cache (unimplemented accessor)
+        n += 1
+        valpos = 3     # (self, ite, res, hash) / (self, and, ptr)
+        cs = ins[0]
+        given = [strip(a) for a in cs.args[1:]]
+        ok = ("param", valpos) in given
+        out.append(inst("GL", "%s:GL10:stores-result-unchanged" % f.npath, OK if ok else VIOLATION, f, cs.line,
+                        "the result parameter is stored as given" if ok else
+                        "the table is given %s instead of the result parameter `%s` itself"
+                        % ([show(a)[:50] for a in cs.args[1:]], f.arg_name(valpos) or "res")))
+    if n < 3:
+        raise CheckerError("GL10: only %d cache insert accessors recognised (expected >= 3)" % n)
     return out
